@@ -172,6 +172,7 @@ structure OvalDef where
   platforms : List (List String) -- metadata>affected → platform
   cpes : List (String × Bool)    -- advisory>affected_cpe_list>cpe, with "cpe.Unbind succeeds"
   criteria : Criteria
+  issued : String := ""          -- advisory>issued as canonical time ("" = the zero time)
 deriving Repr
 
 /-- `deduplicate`: first occurrences, empty strings dropped. -/
@@ -188,15 +189,17 @@ def ovalLinks (d : OvalDef) : String :=
     definition is skipped). -/
 abbrev ProtoFn := OvalDef → Option (List Vuln)
 
-/-- suse / photon: one prototype carrying the updater's distribution. -/
-def protoSingle (sev : String → Nat) (updater dist : String) : ProtoFn := fun d =>
+/-- suse / photon: one prototype carrying the updater's distribution.  photon
+    copies the advisory's issue date, suse does not (`withIssued`). -/
+def protoSingle (sev : String → Nat) (updater dist : String) (withIssued : Bool := false) : ProtoFn := fun d =>
   some [{ updater := updater, name := d.title, desc := d.desc, links := ovalLinks d,
-          sev := d.severity, nsev := sev d.severity, dist := dist }]
+          sev := d.severity, nsev := sev d.severity, dist := dist,
+          issued := if withIssued then d.issued else "" }]
 
 /-- ubuntu: as above but the `Severity` string is not copied. -/
 def protoUbuntu (sev : String → Nat) (updater dist : String) : ProtoFn := fun d =>
   some [{ updater := updater, name := d.title, desc := d.desc, links := ovalLinks d,
-          nsev := sev d.severity, dist := dist }]
+          nsev := sev d.severity, dist := dist, issued := d.issued }]
 
 /-- oracle: one prototype per known platform string of every `affected`
     element; none known → error. -/
@@ -204,7 +207,7 @@ def protoOracle (sev : String → Nat) (updater : String) (platformDist : List (
   let vs := d.platforms.flatMap fun ps => ps.filterMap fun p =>
     (assoc? platformDist p).map fun dist =>
       ({ updater := updater, name := d.title, desc := d.desc, links := ovalLinks d,
-         sev := d.severity, nsev := sev d.severity, dist := dist } : Vuln)
+         sev := d.severity, nsev := sev d.severity, dist := dist, issued := d.issued } : Vuln)
   if vs.isEmpty then none else some vs
 
 /-- `definitionTypeRegex` = `^oval\:com\.redhat\.([a-z]+)\:def\:\d+$`: the
@@ -234,15 +237,15 @@ def rhelCpes : List (String × Bool) → Option (List String)
     when unpatched vulnerabilities are ignored) yield no prototype; otherwise
     one prototype per non-empty affected CPE, as repository. -/
 def protoRhel (sev : String → Nat) (updater dist : String) (ignoreUnpatched : Bool)
-    (tUnaffected tNone tCve : String) : ProtoFn := fun d =>
+    (tUnaffected tNone tCve : String) (repoKey : String := "rhel-cpe-repository") : ProtoFn := fun d =>
   match rhelDefType d.id with
   | none => none
   | some t =>
     if t = tUnaffected ∨ t = tNone ∨ (ignoreUnpatched ∧ t = tCve) then some [] else
     (rhelCpes d.cpes).map fun cs => cs.map fun c =>
       ({ updater := updater, name := d.title, desc := d.desc, links := ovalLinks d,
-         sev := d.severity, nsev := sev d.severity, dist := dist,
-         repo := c ++ "|rhel-cpe-repository|" } : Vuln)
+         sev := d.severity, nsev := sev d.severity, dist := dist, issued := d.issued,
+         repo := c ++ "|" ++ repoKey ++ "|" } : Vuln)
 
 /-! ### RPMDefsToVulns -/
 
